@@ -609,11 +609,25 @@ class ExcFlow:
         while par is not None and not isinstance(par, (ast.IfExp, ast.stmt)):
             par = mod.parents.get(par)
         if isinstance(par, ast.IfExp) and any(x is call for x in ast.walk(par.body)):
+            t = par.test
+            # the guarded term may be a pure expression (`LO <= ord(c) <= HI` around `chr(ord(c) + 32)`): name it
+            if isinstance(t, ast.Compare) and len(t.ops) == 2 and isinstance(t.comparators[0], ast.Call) \
+                    and call_name(t.comparators[0]) == 'ord' and len(t.comparators[0].args) == 1 \
+                    and isinstance(t.comparators[0].args[0], ast.Name):
+                gtxt = unparse(t.comparators[0])
+
+                class Sub(ast.NodeTransformer):
+                    def visit_Call(self, node):
+                        if unparse(node) == gtxt:
+                            return ast.copy_location(ast.Name(id='__guarded', ctx=ast.Load()), node)
+                        return self.generic_visit(node)
+                import copy
+                arg = Sub().visit(copy.deepcopy(arg))
+                t = ast.Compare(left=t.left, ops=t.ops, comparators=[ast.Name(id='__guarded', ctx=ast.Load()), t.comparators[1]])
             names = {x.id for x in ast.walk(arg) if isinstance(x, ast.Name)}
             if len(names) == 1:
                 v = names.pop()
                 iv = None
-                t = par.test
                 if isinstance(t, ast.Compare) and len(t.ops) == 2 and isinstance(t.comparators[0], ast.Name) and t.comparators[0].id == v:
                     lo, hi = ev_const(t.left), ev_const(t.comparators[1])
                     if isinstance(lo, int) and isinstance(hi, int):
@@ -621,7 +635,7 @@ class ExcFlow:
                         hi -= isinstance(t.ops[1], ast.Lt)
                         iv = miniev.interval(arg, {v: (lo, hi)}, ev_const)
                 if iv is not None:
-                    return iv, f'guard `{unparse(t)}`'
+                    return iv, f'guard `{unparse(par.test)}`'
         # idiom 2: variable seeded by int(group) and refined by comparisons
         if isinstance(arg, ast.Name):
             def seed(c):
